@@ -27,7 +27,7 @@ ASSUME = ["ray stand-in: a remote job is a pure function of its pickled submissi
 SHARDS = {"quick": 8, "thorough": 16}
 BUDGET_S = {"quick": 100, "thorough": 1300}
 DECIDING = ["delivery_once", "delivery_step", "delivery_addressee", "impulse_applied_once", "truth_trajectory", "membership",
-            "duration_active_steps", "time_bias_queue", "priority_effect", "priority_effect_nontrivial"]
+            "duration_active_steps", "time_bias_queue", "time_bias_at_use", "priority_effect", "priority_effect_nontrivial"]
 MANIFEST = {
     "technique": "runtime monitoring: delivery/application event log of real Scenario runs checked offline against integer-time expectations and a closed-form trajectory",
     "level_text": "held on every executed (start, step, event-time) configuration: each event delivered exactly once, in the step whose (prev, new] interval holds it, to its addressee; each impulse changes truth (and planned estimate) velocity exactly once; duration events active in exactly the overlapping steps for the named engine/sensor",
@@ -115,7 +115,7 @@ def gen_case(rng):
     if any(e["kind"] == "agent_removal" and e["agent_type"] == "sensor" for e in events):
         events = [e for e in events if not (e["kind"] == "sensor_time_bias" and e["sensor"] == S_IDS[1])] or events[:1]
     return {"kind": "case", "start": start.isoformat(), "step": step, "n": n, "events": events, "model": rng.choice(["two_body"] * 4 + ["special_perturbations"]),
-            "visible": rng.random() < 0.5, "engine_ids": rng.choice([[1, 2], [0, 7], [7, 0], [5, 0], [0, 1], [12, 3]])}
+            "aware_times": rng.random() < 0.5, "visible": rng.random() < 0.5, "engine_ids": rng.choice([[1, 2], [0, 7], [7, 0], [5, 0], [0, 1], [12, 3]])}
 
 
 # ---------------------------------------------------------------------------------------------
@@ -188,6 +188,12 @@ def build_cfg(case):
         elif e["kind"] == "sensor_time_bias":
             evs.append({"scope": "observation_generation", "scope_instance_id": e["sensor"], "start_time": sk.iso(t),
                         "end_time": sk.iso(start + timedelta(seconds=e["end"])), "event_type": "sensor_time_bias", "applied_bias": e["bias"]})
+    if case.get("aware_times"):
+        # event times written the way the shipped JSON configs write them: ISO strings with an explicit UTC designator
+        for ev in evs:
+            for key in ("start_time", "end_time"):
+                if key in ev:
+                    ev[key] = ev[key] + "Z"
     cfg = sk.scenario_cfg(start, start + timedelta(seconds=(n + 2) * step), step, engines, truth_only=False, model=case.get("model", "two_body"),
                           filter_model="two_body", events=evs, seed=7)
     return cfg
@@ -199,6 +205,7 @@ class Log:
         self.deliveries = []  # (event_id, event_type, scope_instance_id, receiver_kind, receiver_id, step)
         self.applications = []  # (job func, agent_id, impulse time, at integration time)
         self.bias_queue = {}  # step -> {sensor_id: [event ids]}
+        self.bias_at_use = {}  # step -> {sensor_id: {event ids}} seen by the task-execution jobs
         self.reward_seen = {}  # (step, engine_id) -> (reward passed to decision, base reward, target_list)
         self.membership = {}  # step -> dict
         self.current_job = None
@@ -253,6 +260,19 @@ def _install(log: Log):
 
     SensingAgent.pruneTimeBiasEvents = pruneTimeBiasEvents
     undo.append((SensingAgent, "pruneTimeBiasEvents", orig_prune))
+
+    # ... and at the point of use: the sensor copy a task-execution job works on (fetched from the object store)
+    from resonaate.sensors.sensor_base import Sensor
+
+    orig_collect = Sensor.collectObservations
+
+    def collectObservations(self, *a, **kw):
+        host = self.host
+        log.bias_at_use.setdefault(log.step, {}).setdefault(int(host.simulation_id), set()).update(e.id for e in host.sensor_time_bias_event_queue)
+        return orig_collect(self, *a, **kw)
+
+    Sensor.collectObservations = collectObservations
+    undo.append((Sensor, "collectObservations", orig_collect))
 
     orig_gen = CentralizedTaskingEngine.generateTasking
 
@@ -405,6 +425,11 @@ def eval_case(ctx, case):
             other = sorted((k, s) for k, q in log.bias_queue.items() for s, ids in q.items() if s != e["sensor"] and rid in ids)
             ctx.check(got_steps == want_steps and not other, f"timebias-queue-{tag}",
                       f"time bias [{e['off']},{e['end']}]s on sensor {e['sensor']} carried into tasking in steps {got_steps}, expected {want_steps}; other sensors: {other}", wit, mon="time_bias_queue")
+            for k, per in sorted(log.bias_at_use.items()):
+                if e["sensor"] in per:
+                    ctx.check((rid in per[e["sensor"]]) == (k in want_steps), f"timebias-at-point-of-use-{tag}",
+                              f"step {k}: the task-execution job of sensor {e['sensor']} {'carried' if rid in per[e['sensor']] else 'did not carry'} the time bias [{e['off']},{e['end']}]s "
+                              f"(active steps {want_steps})", wit, mon="time_bias_at_use")
 
     # ---- impulses: number of physical applications and resulting trajectory -------------------
     X0 = _initial_states(case)
